@@ -115,7 +115,7 @@ class ResolveSpec(Spec):
         obs = vetlib.run_harness(send, os.path.join(work, "impl"))
         status = Counter(o["status"] for o in obs.values())
         exprs = [(cid, self.model_expr(o)) for cid, o in obs.items() if o["status"] in ("ok", "panic") and "model_input" in o]
-        model = vetlib.run_model(exprs, os.path.join(work, "model"), MODEL_IMPORTS) if model_ok else {}
+        model = vetlib.run_model(exprs, os.path.join(work, "model"), getattr(self, "model_imports", MODEL_IMPORTS)) if model_ok else {}
         res = {"cases": [c["id"] for c in allcases], "mismatches": [], "oracle_failures": [], "samples": [],
                "findings_seen": {}, "stats": {}}
         classes = Counter()
@@ -560,6 +560,80 @@ class C05(ResolveSpec):
 def corpus_case(pid, name):
     with open(os.path.join(VERIF, "corpus", pid, name + ".json")) as f:
         return json.load(f)
+
+
+class C03(ResolveSpec):
+    pid = "C03"
+    model_imports = MODEL_IMPORTS + ["ShowReq"]
+    coq_files = ["Properties/C03.v"]
+    theorems = ["C03_requirements_solve_the_policy_equations_partial", "C03_the_solution_is_unique_partial"]
+    level_text = ("Theorems about the model of resolve_requirements for EVERY criteria table, dependency graph and policy table: the "
+                  "computed demand vector satisfies the documented equations (own policy criteria replace the demand; otherwise the "
+                  "union of: safe-to-deploy for top-level crates, what each workspace member passes to its dev-dependencies one level "
+                  "deep, and what every dependent passes on along normal/build edges — its dependency-criteria entry for that "
+                  "dependency, possibly empty, else its own demand), and the equations have exactly one solution, so the computed one "
+                  "is the least set satisfying the rules. `_partial`: under the executable side condition topo_ok (the order "
+                  "DepGraph::new produced lists each crate once, before its normal/build dependencies); that the DFS delivers such an "
+                  "order and the documented roots (roots_ok) is not proved but evaluated inside Coq on every generated graph.")
+    level_note = ("Model = coq/DepGraph.v (depgraph_new: two DFS passes, roots, dev-only; resolve_requirements: dev pass + reverse "
+                  "topological propagation). The implementation's topo order, roots, dev-only flags and demand vector are compared "
+                  "with the model's on every case; an independent fixpoint oracle (tools/oracle.py requirements) recomputes the "
+                  "least solution of the documented rules by naive iteration and is compared with the implementation's vector.")
+    design_ref = "DESIGN.md §4 C03"
+    rule = ("seeded random dependency graphs (1-2 workspace members, 0-2 first-party crates, 1-7 third-party crates, second versions, "
+            "git/path forks, normal/build/dev edges incl. edges that are both, dev cycles back into the workspace, shared first-party "
+            "crates, diamonds) x dense policy tables (versioned and unversioned; criteria / dev-criteria / dependency-criteria incl. "
+            "empty lists; audit-as-crates-io) x 0-4 custom criteria with implications; non-trivial = some crate has a policy entry and "
+            "some demand is neither empty nor the default; distinct = distinct (topo, roots, demand vector)")
+    projection_doc = "topological order, roots, dev-only flags and the demand vector (criteria bitset per package)"
+    assumptions = ["topo_ok / roots_ok: evaluated by vm_compute on every case (not proved of depgraph_new)",
+                   "cargo's resolve graph has no cycle of normal/build edges"]
+    quick_n = 250
+    thorough_n = 5000
+
+    def model_modules_paths(self):
+        return ["Show", "ShowReq"]
+
+    def gen_cases(self, rng, n):
+        return [gen.gen_req_case(rng, f"g{i}") for i in range(n)]
+
+    def model_expr(self, obs):
+        mi = obs["model_input"]
+        return f"(sreport (resolve {coq(mi['graph'])} {coq(mi['store'])}) ++ sreq_ok {coq(mi['graph'])})%string"
+
+    def project(self, rep, o, model=None):
+        d = {"topo": rep.topo, "roots": rep.roots, "devonly": rep.devonly, "reqs": rep.reqs}
+        if model is not None:
+            d["side_conditions"] = "ok" if ("(topo_ok)" in model and "(roots_ok)" in model) else model[-24:]
+        else:
+            d["side_conditions"] = "ok"
+        return d
+
+    def nontrivial(self, case, o, rep):
+        nodes, _ = O.graph_nodes(o["model_input"]["graph"])
+        return any(nd["policy"] for nd in nodes) and len(set(rep.reqs)) > 2
+
+    def classify(self, case, o, rep):
+        return "distinct-demands:%d" % min(len(set(rep.reqs)), 5)
+
+    def oracle(self, case, o, rep):
+        out = []
+        table = O.table_of(o["model_input"]["store"])
+        graph = o["model_input"]["graph"]
+        R, roots = O.requirements(table, graph)
+        names = o["tables"]["nodes"]
+        if R is None:
+            return ["the policy equations did not converge (cycle of normal/build edges?)"]
+        if sorted(roots) != sorted(rep.roots):
+            out.append(f"top-level crates are {[names[i] for i in sorted(roots)]}, the implementation treats {[names[i] for i in rep.roots]} as roots")
+        for i, r in enumerate(R):
+            bits = sum(1 << c for c in r)
+            if bits != rep.reqs[i]:
+                cn = o["tables"]["criteria"]
+                want = [cn[c] for c in sorted(r)]
+                got = [cn[c] for c in range(len(cn)) if rep.reqs[i] >> c & 1]
+                out.append(f"{names[i]} must meet {want} by the policy rules, the implementation demands {got}")
+        return out
 
 
 class C04(ResolveSpec):
@@ -2007,7 +2081,7 @@ class C18(SimpleSpec):
         return out
 
 
-REGISTRY = {c.pid: c for c in [C01, C02, C04, C05, C06, C07, C08, C09, C10, C11, C12, C13, C14, C15, C16, C17, C18, C19]}
+REGISTRY = {c.pid: c for c in [C01, C02, C03, C04, C05, C06, C07, C08, C09, C10, C11, C12, C13, C14, C15, C16, C17, C18, C19]}
 
 
 def get(pid):
